@@ -40,6 +40,9 @@ def pattern_alphabet(fn_name, gen_name):
         ("n @ (o, q)", "(u8, u8)"), ("N(None)", "N"), ("S { k: N(w), .. }", "S"), ("[s, t]", "[u8; 2]"),
         ("(_, _)", "(u8, u8)"), ("N(N(z))", "N"), (plain + "_", "u8"), ("_" + gen_name, "u8"),
         ("Foo", "u8"), ("mut " + fn_name, "u8"),
+        # a single binding with a non-default binding mode / sub-pattern inside a destructuring pattern
+        ("N(mut u)", "N"), ("S { ref v, .. }", "S"), ("(ref mut y, _)", "(i32, bool)"), ("N(x2 @ _)", "N"),
+        ("&mut N(ref mut j)", "&mut N"),
     ]
 
 
